@@ -32,6 +32,8 @@ def gen_case(rng: random.Random) -> dict[str, Any]:
                               "sig": rng.choice(["SIGTERM", "SIGINT"]), "d": rng.choice([0, 1, 3])}
     cli = kind in ("cliReturn", "cliRaise") or (kind in ("crashAfterStartup",) and rng.random() < 0.5) or \
         (kind in ("startupFail", "startupTimeout", "signalDuringStartup") and rng.random() < 0.5)
+    if kind == "signalDuringStartup" and rng.random() < 0.4:
+        ending["shieldFail"] = True
     if kind == "cliReturn":
         r = rng.choice(["none", "int", "int", "int", "other"])
         ending["r"] = r
@@ -73,7 +75,8 @@ class C15(Prop):
     rule = ("applications of 1-5 components registering 0-4 teardown callbacks each (sync / async, with / without "
             "pass_exception, before and after the point of failure) and 0-2 service tasks, CLI and non-CLI roots; every "
             "ending: run() returning None / 0 / 1..127 / out-of-range / negative / non-int or raising, a component "
-            "failing during start-up, start-up time-out, SIGINT / SIGTERM (real signals, raised in-process) during and "
+            "failing during start-up, start-up time-out, SIGINT / SIGTERM (real signals, raised in-process) during (also: while "
+            "a component is in a shielded step after which it fails) and "
             "after start-up, a service task crashing after start-up; both back-ends. Non-trivial: >=3 teardown "
             "callbacks registered by >=2 components and an ending other than a clean return")
     assumptions = ["OS signal delivery and sys.exit are implementation-side", "the order in which sibling components register "
@@ -101,6 +104,8 @@ class C15(Prop):
         endings += [{"k": "cliReturn", "r": "int", "n": n, "isub": kind} for n in (0, 3, 127, 128) for kind in ("enum", "cls")]
         endings += [{"k": "cliRaise", "e": 1}, {"k": "startupFail"}, {"k": "startupTimeout"},
                     {"k": "signalDuringStartup", "sig": "SIGINT"}, {"k": "signalDuringStartup", "sig": "SIGTERM"},
+                    {"k": "signalDuringStartup", "sig": "SIGINT", "shieldFail": True},
+                    {"k": "signalDuringStartup", "sig": "SIGTERM", "shieldFail": True},
                     {"k": "signalAfterStartup", "sig": "SIGINT", "d": 10}, {"k": "signalAfterStartup", "sig": "SIGTERM", "d": 10},
                     {"k": "crashAfterStartup", "e": 2, "d": 10}]
         cases = []
